@@ -443,7 +443,7 @@ result_t DateTimeDataType::readSymbols(size_t offset, size_t length, const Symbo
           return RESULT_ERR_INVALID_POS;
         }
         // number of minutes since 01.01.2009
-        minutes |= symbol*(1 << (8*i));
+        minutes |= static_cast<unsigned long>(symbol) << (8*i);
         if (i < 3) {
           break;
         }
